@@ -20,14 +20,33 @@ Exhaustive: all sequences of length <= 3 (quick) / <= 4 (thorough) over a reduce
 alphabet on 2 x 2 objects, for every kind; random: seeded sequences of up to 20
 operations over the full alphabet on 2 x 3 objects.
 
+Two further input classes (added after the second seeded-change round):
+* list mutators with extended slices: every list collection (one-to-many, both sides of
+  many-to-many) with 0..n members x every slice of the grid start/stop in {None,-4..4},
+  step in {None,1,2,3,-1,-2} (thorough: also 4,-3) for deletion and for assignment of
+  0 / 1 / all non-members / exactly-as-many-as-selected members, then deletion of the
+  same slice; sides compared after each step, a ninth also after flush + reload.  The
+  random sequences draw bounds in [-len-2, len+2] and steps {None,1,2,3,-1,-2} as well
+  (the former restriction to C38's "simple domain" went away with b7b3380).
+* backref mutations queued against UNLOADED collections: the parent-side collections are
+  not loaded (objects fetched anew after expunge_all, or expired), autoflush is off, and
+  every sequence (length <= 3 exhaustive over all attach/detach operations of the other
+  side on 2 x 2 objects, from 4-5 initial link sets; random ones up to 8 operations on
+  2 x 3 objects with one collection loaded midway) mutates the relationship through the
+  other side only.  Then the collections are loaded: both sides must equal what the
+  program did on the loaded side (``<kind>-queued-backref-sides-disagree-after-load``),
+  and flush + expire + reload must keep exactly those pairs
+  (``<kind>-queued-backref-lost-on-flush``).  list / set / dict x o2m / m2m.
+
 Guards:
 * many-to-many collections and keyed dicts never receive duplicates (duplicate
   association rows are a user error); for one-to-many lists duplicates are allowed in a
   fraction of the random sequences but a duplicated child is never moved to another
   parent, and any disagreement in a sequence that held a duplicate is reported under the
   single mechanism ``o2m-list-duplicate-members-backref``; reload compares sets.
-* slice assignment is generated only inside C38's "simple domain" (positive step, bounds
-  within [-len, len]); the rest is C38's `list-slice-setitem-bounds`.
+* an extended-slice assignment whose right-hand side permutes current members is the same
+  index-by-index assignment as a swap and is reported under the registered
+  ``o2m-list-swap-member-lost-on-flush``.
 * dict collections are keyed by the child's (immutable here) ``name``; ``coll[k] = c`` is
   only generated with ``k == c.name``.
 * operations on a relationship attribute whose other side is not loaded are documented
@@ -557,7 +576,10 @@ def flush_reload(env, w, sess, trail):
             # a member that is (or was) present twice: removing one occurrence fires a
             # remove event that clears its has-parent flag although it is still a member
             mech = "o2m-list-duplicate-members-lost-on-flush"
-        elif any(o[0] == "coll" and o[3] == "swap" for o in since):
+        elif any(o[0] == "coll" and (o[3] == "swap" or (o[3] == "setslice" and o[4][2] not in (None, 1)))
+                 for o in since):
+            # (an extended-slice assignment that permutes current members is the same
+            # index-by-index assignment as a swap)
             # item-by-item permutation: a member is appended at its new index before it
             # is removed from the old one, which leaves its has-parent flag cleared
             mech = "%s-swap-member-lost-on-flush" % w.kind.replace("_", "-")
@@ -606,7 +628,10 @@ def slice_class_part(env, ctx, idx0):
                     # assignment: the non-members as right-hand side (0, 1 or all of them, and
                     # exactly as many as the slice selects); then delete the same slice again
                     k = len(range(*slice(*sl).indices(n)))
-                    for rhs in ([], rest[:1], rest, (rest + members)[:k]):
+                    variants = ([], rest[:1], rest, (rest + members)[:k])
+                    if ctx.quick:
+                        variants = (rest[:1], (rest + members)[:k]) if (idx // ctx.nshards) % 2 else ([], rest)
+                    for rhs in variants:
                         run_sequence(env, kind, [("coll", side, 0, "replace", members),
                                                  ("coll", side, 0, "setslice", sl, list(rhs)),
                                                  ("coll", side, 0, "delslice", sl)] + persist)
